@@ -232,7 +232,25 @@ impl PersisterTask {
 
         let mut attempts = 0;
         loop {
-            match file.write_vectored(&slices).await {
+            // A vectored write may be partial (tokio buffers at most 2 MiB per call): write the rest,
+            // then wait until the buffered data has reached the file before its size is published.
+            let result = match file.write_vectored(&slices).await {
+                Ok(written) => {
+                    let header_rest = header.get(written..).unwrap_or_default();
+                    let batch_rest = batch_bytes
+                        .get(written.saturating_sub(header.len())..)
+                        .unwrap_or_default();
+                    match file.write_all(header_rest).await {
+                        Ok(_) => match file.write_all(batch_rest).await {
+                            Ok(_) => file.flush().await,
+                            Err(e) => Err(e),
+                        },
+                        Err(e) => Err(e),
+                    }
+                }
+                Err(e) => Err(e),
+            };
+            match result {
                 Ok(_) => {
                     if fsync {
                         match file.sync_all().await {
